@@ -187,6 +187,49 @@ def _constant_like(e: ast.AST) -> bool:
     return False
 
 
+def _forward_tuple_temp(stmts):
+    """`if c: T = (a, b) else: T = (c, d)` followed by `x, y = T` (T used nowhere else)  ->  the unpacking moved into the arms
+    (the shape an inlined helper with several `return a, b` leaves behind)"""
+    out = list(stmts)
+    k = 0
+    while k + 1 < len(out):
+        a, b = out[k], out[k + 1]
+        if isinstance(a, ast.If) and isinstance(b, ast.Assign) and len(b.targets) == 1 and isinstance(b.targets[0], (ast.Tuple, ast.List)) \
+                and isinstance(b.value, ast.Name):
+            T = b.value.id
+
+            def last_assign(body):
+                return body[-1] if body and isinstance(body[-1], ast.Assign) and len(body[-1].targets) == 1 \
+                    and isinstance(body[-1].targets[0], ast.Name) and body[-1].targets[0].id == T \
+                    and isinstance(body[-1].value, (ast.Tuple, ast.List)) and len(body[-1].value.elts) == len(b.targets[0].elts) else None
+            arms = []
+            cur = a
+            ok = True
+            while True:
+                arms.append(cur.body)
+                if len(cur.orelse) == 1 and isinstance(cur.orelse[0], ast.If):
+                    cur = cur.orelse[0]
+                    continue
+                if not cur.orelse:
+                    ok = False
+                else:
+                    arms.append(cur.orelse)
+                break
+            uses = sum(1 for st in out for x in ast.walk(st) if isinstance(x, ast.Name) and x.id == T and isinstance(x.ctx, ast.Load))
+            if ok and uses == 1 and all(last_assign(arm) is not None for arm in arms):
+                import copy as _copy
+                for arm in arms:
+                    la = arm[-1]
+                    new = ast.Assign([_copy.deepcopy(b.targets[0])], la.value)
+                    ast.copy_location(new, la)
+                    ast.fix_missing_locations(new)
+                    arm[-1] = new
+                del out[k + 1]
+                continue
+        k += 1
+    return out
+
+
 def _split_parallel(stmts):
     """`a, b = x, y` -> `a = x; b = y` when no target is read on the right-hand side (then the order does not matter)"""
     out = []
@@ -196,8 +239,14 @@ def _split_parallel(stmts):
                 and all(isinstance(t, ast.Name) for t in st.targets[0].elts) \
                 and not any(isinstance(e, ast.Starred) for e in st.value.elts):
             tnames = {t.id for t in st.targets[0].elts}
-            reads = {x.id for e in st.value.elts for x in ast.walk(e) if isinstance(x, ast.Name)}
-            if not (tnames & reads) and len(tnames) == len(st.targets[0].elts):
+            # in sequence, element i may read its own target and the targets that come later — not one already re-bound
+            order_safe = True
+            done = set()
+            for t, e in zip(st.targets[0].elts, st.value.elts):
+                if {x.id for x in ast.walk(e) if isinstance(x, ast.Name)} & done:
+                    order_safe = False
+                done.add(t.id)
+            if order_safe and len(tnames) == len(st.targets[0].elts):
                 for t, e in zip(st.targets[0].elts, st.value.elts):
                     a = ast.Assign([ast.Name(t.id, ast.Store())], e)
                     ast.copy_location(a, st)
@@ -253,6 +302,7 @@ class Canon(ast.NodeTransformer):
         self._uses = uses
 
         def rec(stmts):
+            stmts = _forward_tuple_temp(stmts)
             stmts = self._fold_returns(_split_parallel(stmts))
             for st in stmts:
                 for fld in ("body", "orelse", "finalbody"):
